@@ -20,6 +20,9 @@ A resolver is described by two bits: whether it returns an error of its own, and
 order: complete = one value for every step. What the real response looks like for such a list (data tree,
 error paths) is computed by the driver and compared with the real `Result`.
 
+The operation kind (query / mutation) does not appear: the protocol code is the same for both, and the steps of
+the model are sequential in either case.
+
 Total executable functions, core Lean only. -/
 namespace GqlModel.Cancel
 
